@@ -73,6 +73,15 @@ LOOPS += [
               "touched point or leaving by `break 'outer`; `point_ix` only ever grows"),
 ]
 
+LOOPS += [
+    dict(id="insertEdge", file=AH + "topo/mod.rs", func="insert_edge",
+         anchor=r"let\s+mut\s+ix\s*=\s*edges\.len\(\)\s*-\s*1\s*;\s*while\s+ix\s*>\s*0\s*\{",
+         while_cond="ix > 0",
+         step="insertEdgeStep", last="ix", seg="unused_slot", generic=True, nested=[],
+         what="Axis::insert_edge: move the new edge down to its place (`while ix > 0 { …; ix -= 1 }`); "
+              "St.segFirst is unused"),
+]
+
 CONTOUR_FNS = {
     "range": "pub fn range(self) -> Range<usize> { self.first()..self.last() + 1 }",
     "next": "pub fn next(self, index: usize) -> usize { if index >= self.last_ix as usize { self.first_ix as usize } else { index + 1 } }",
@@ -372,6 +381,14 @@ class LoopGen:
             if re.search(r"&\s*mut\s+" + n + r"\b", txt):
                 raise Unsupported(f"line {st['line']}: control variable `{n}` is borrowed mutably")
 
+    def traps(self, lean, pad, line):
+        """checked usize subtraction in a translated control expression"""
+        out = []
+        for g in B.sub_guards(lean):
+            self.checked.append((line, g))
+            out.append(f"{pad}if {g} then .trap else")
+        return out
+
     def data_sub_guards(self, st, names, pad):
         """usize subtractions on control variables inside a statement that is otherwise dropped stay in the skeleton
         as checked subtractions: `if a < b then .trap else`"""
@@ -454,7 +471,8 @@ class LoopGen:
         if cl is not None:
             if cl[0] in slots:
                 raise Unsupported(f"line {st['line']}: `let` rebinds the control variable `{cl[0]}`")
-            return [f"{pad}let {camel(cl[0])} := {cl[1]}"] + self.seq(rest, ind, names | {cl[0]}, slots)
+            return (self.traps(cl[1], pad, st["line"]) + [f"{pad}let {camel(cl[0])} := {cl[1]}"] +
+                    self.seq(rest, ind, names | {cl[0]}, slots))
         if k == "let":
             m = re.match(r"let (?:mut )?([A-Za-z_]\w*)\b", st["text"])
             if m and not st.get("call") and m.group(1) in names:
@@ -472,7 +490,8 @@ class LoopGen:
         if k == "continue":
             return [f"{pad}.cont {exit_state}"]
         if k == "assign":
-            return ([f"{pad}let {camel(st['var'])} := {self.assign_value(st, names)}"] +
+            val = self.assign_value(st, names)
+            return (self.traps(val, pad, st["line"]) + [f"{pad}let {camel(st['var'])} := {val}"] +
                     self.seq(rest, ind, names, slots))
         if k == "loop":
             if st["line"] not in self.loop_names:
@@ -545,6 +564,7 @@ ENTRY = {
                  "last_ix = point_ix; loop { point_ix = contour.prev(point_ix);"],
     "segMain": ["last_ix = point_ix; let mut on_edge = false; let mut passed = false; loop {"],
     "edgePts": ["let mut point_ix = segment.first(); let last_ix = segment.last(); loop {"],
+    "insertEdge": ["if edges.len() == 1 { return; } let mut ix = edges.len() - 1; while ix > 0 {"],
     "weak": ["let points = outline.points.get_mut(contour.range())?;",
              "let last_ix = points.len() - 1; let mut point_ix = first_touched_ix; let mut last_touched_ix; 'outer: loop {"],
 }
@@ -619,6 +639,21 @@ RING_SITES = {
 }
 
 
+BSEARCH_TEXT = (
+    "let mut min_ix = 0; let mut max_ix = edges.len(); while min_ix < max_ix { let mid_ix = (min_ix + max_ix) >> 1; "
+    "let edge = &edges[mid_ix]; let fpos = edge.fpos as i32; match u.cmp(&fpos) { Ordering::Less => max_ix = mid_ix, "
+    "Ordering::Greater => min_ix = mid_ix + 1, Ordering::Equal => { store_point(point, dim, edge.pos); "
+    "continue 'points; } } } min_ix")
+
+
+def check_bsearch(read):
+    """Model/LoopIter.lean `bsearch` transcribes the edge binary search of align_strong_points"""
+    flat = " ".join(B.strip_comments(read(AH + "hint/outline.rs")).split())
+    if BSEARCH_TEXT not in flat:
+        raise Unsupported("hint/outline.rs: the binary search of align_strong_points no longer reads as transcribed in "
+                          "Model/LoopIter.lean `bsearch`")
+
+
 def check_ring_sites(read):
     """Model/EdgeRing.lean (hand-written) transcribes these code sites; they are the only writers of edge_next_ix"""
     writes = 0
@@ -642,6 +677,7 @@ def check_ring_sites(read):
 def generate(read):
     check_contour_fns(B.strip_comments(read(AH + "outline.rs")))
     check_ring_sites(read)
+    check_bsearch(read)
     L_defs, header, stats = [], [], []
     for spec in LOOPS:
         src = B.strip_comments(read(spec["file"]))
@@ -679,7 +715,7 @@ def generate(read):
         for ln, text in sorted(set(g.dropped)):
             header.append(f"      dropped line {ln}: `{text}`")
         for ln, gd in sorted(set(g.checked)):
-            header.append(f"      checked subtraction in the dropped statement of line {ln}: traps if {gd}")
+            header.append(f"      checked subtraction (line {ln}): traps if {gd}")
         for name, text in g.defs:
             L_defs.append(f"/-- {spec['file']} fn {spec['func']}: one execution of the body of " +
                           ("the anchored loop" if name == spec["step"] else "a nested loop") + " -/")
